@@ -183,7 +183,7 @@ def run(prop, tier, seed, replay=None):
         st = drive(binary, s, n, events, out, only)
         if "crash" in st:
             return s, out, st, None, events
-        tv = vlib.validate_trace("Trace_RoutingTable", trace_cfgs(prop), out, INV_PROPS,
+        tv = vlib.validate_trace("Trace_RoutingTable", trace_cfgs(prop), out, INV_PROPS, max_rounds=30,
                                  timeout=1500)
         return s, out, st, tv, events
 
